@@ -359,7 +359,7 @@ Proof.
     Forall (fun pf : pairs * list fieldspec => incl (snd pf) label_tbl) l0).
   { intros l0 H. destruct (mapM _ (pd_labels d)) as [l| | |] eqn:E; cbn [bind] in H; try discriminate. inv H.
     apply Forall_app. split; [|constructor; [exact common_labels_in_tbl|constructor]].
-    apply mapM_Forall2P in E. unfold no_custom_fields in Hn.
+    apply mapM_Forall2P in E. destruct Hn as [Hn _].
     clear -E Hn. induction E as [|e pf te tl He _ IH]; [constructor|].
     inversion Hn; subst. constructor; [|auto].
     destruct (Labels.label_fs LabelsDefaults.default_tc e) as [fss| | |] eqn:EF; cbn [bind] in He; try discriminate.
@@ -590,7 +590,8 @@ Section Acc.
 
   Lemma run_kind_Inv k d m m' : dirs_wf d -> Inv m -> run_kind nonstr k d m = Ok m' -> Inv m'.
   Proof.
-    intros ([Hrp Him] & Hns & Hn & _ & _ & _ & Hp & Hs) [HW Hd]. unfold run_kind. rewrite Hrp, Him.
+    intros ([Hrp Him] & Hns & Hn & _ & _ & _ & Hp & Hs) [HW Hd]. unfold run_kind. rewrite Hrp, Him, (proj2 Hn).
+    destruct (String.eqb k "PatchTransformer"); [intros H; inv H; split; assumption|].
     destruct (String.eqb k "NamespaceTransformer").
     { intros H. destruct (namespace_transform_W _ _ _ Hns HW Hd H) as [W' D']. split; auto. }
     destruct (String.eqb k "PrefixTransformer").
@@ -835,7 +836,8 @@ Section NoPanic.
 
   Lemma np_run_kind k d m : dirs_wf d -> Inv m -> np (run_kind nonstr k d m).
   Proof.
-    intros ([Hrp Him] & Hns & _) [HW _]. unfold run_kind. rewrite Hrp, Him.
+    intros ([Hrp Him] & Hns & Hn & _) [HW _]. unfold run_kind. rewrite Hrp, Him, (proj2 Hn).
+    destruct (String.eqb k "PatchTransformer"); [discriminate|].
     destruct (String.eqb k "NamespaceTransformer").
     { unfold namespace_transform. destruct (String.eqb _ ""); [discriminate|apply np_ns_loop]. }
     destruct (String.eqb k "PrefixTransformer").
@@ -1056,34 +1058,126 @@ Section TopNoPanic.
     apply filters_for_ok. intros b f Hb Hf. eapply gen_rule_ok; eauto.
   Qed.
 
-  (* IgnoreLocal panics exactly on an id collision among the resources it keeps *)
+  (* IgnoreLocal never panics: an id collision among the resources it keeps is an error since /repo 66fde0c
+     (it used to panic in Factory.FromResourceSlice) *)
   Lemma np_remove_loop ids kept : forall cur, np (remove_loop ids kept cur).
   Proof.
     induction ids as [|id t IH]; intros cur; cbn [remove_loop]; [discriminate|].
     destruct (existsb _ kept); [apply IH|]. destruct (Nat.eqb _ _); [apply IH|discriminate].
   Qed.
 
-  Lemma np_ignore_local m : distinct_ids m -> np (ignore_local m).
+  Lemma np_ignore_local_any m : np (ignore_local m).
   Proof.
-    intros Hd. unfold ignore_local. destruct (negb _); [discriminate|].
-    rewrite (append_all_ok _ []) by (cbn [app]; do 2 apply distinct_ids_filter; exact Hd).
-    apply np_remove_loop.
+    unfold ignore_local. destruct (negb _); [discriminate|].
+    destruct (append_all pipe_cs [] _); try discriminate. apply np_remove_loop.
+  Qed.
+  Lemma np_ignore_local m : distinct_ids m -> np (ignore_local m).
+  Proof. intros _. apply np_ignore_local_any. Qed.
+
+  (* ids after the hash step: a resource that was not renamed keeps its id; the re-check at the end of the
+     HashTransformer (fix 9a490e0) makes the id of every renamed resource unique - so the map has distinct ids *)
+  Lemma hash_res_unrenamed r r' : hash_res nonstr r = Ok r' -> r_needs_hash r = false -> r' = r.
+  Proof. unfold hash_res. intros H E. rewrite E in H. now inv H. Qed.
+
+  Lemma hash_res_needs r r' : hash_res nonstr r = Ok r' -> r_needs_hash r' = r_needs_hash r.
+  Proof.
+    unfold hash_res. destruct (r_needs_hash r) eqn:E; [|intros H; inv H; exact E].
+    destruct (_ || _); [|discriminate]. destruct (Hash.hash_content _); cbn [bind]; try discriminate.
+    unfold hash_one. rewrite E. destruct (set_name nonstr _ _); cbn [bind]; try discriminate. intros H. inv H. cbn. exact E.
   Qed.
 
-  (* the hash suffixes create no id collision (C07_ids_unique_hash_refuted: they can) *)
-  Definition no_hash_clash (t : ptree) : Prop :=
-    forall m m1, accumulate nonstr t = Ok m -> mapM (hash_res nonstr) m = Ok m1 -> distinct_ids m1.
-
-  (* PIPE_build_no_panic_partial *)
-  Theorem build_no_panic o t : tree_wf t -> no_hash_clash t -> build nonstr o t <> Panic.
+  Lemma count_one_distinct r m :
+    In r m -> count_id cs (cur_id cs r) m = 1 ->
+    forall x, In x m -> x <> r -> id_equals (cur_id cs r) (cur_id cs x) = false.
   Proof.
-    intros Hwf Hc. unfold build. destruct t as [docs|n d ents]; [discriminate|].
+    intros Hr Hc x Hx Hne. destruct (id_equals (cur_id cs r) (cur_id cs x)) eqn:E; [|reflexivity]. exfalso.
+    apply in_split in Hr as (l1 & l2 & ->). rewrite count_id_app in Hc. unfold count_id in Hc. cbn [filter] in Hc.
+    rewrite id_equals_refl_rid in Hc. cbn [List.length] in Hc.
+    assert (Z1 : List.length (filter (fun y => id_equals (cur_id cs r) (cur_id cs y)) l1) = 0) by lia.
+    assert (Z2 : List.length (filter (fun y => id_equals (cur_id cs r) (cur_id cs y)) l2) = 0) by lia.
+    apply in_app_or in Hx as [Hx|[Hx|Hx]]; [|congruence|].
+    - assert (In x (filter (fun y => id_equals (cur_id cs r) (cur_id cs y)) l1)) by (apply filter_In; auto).
+      destruct (filter _ l1); [contradiction|discriminate].
+    - assert (In x (filter (fun y => id_equals (cur_id cs r) (cur_id cs y)) l2)) by (apply filter_In; auto).
+      destruct (filter _ l2); [contradiction|discriminate].
+  Qed.
+
+  (* pairwise formulation of distinct_ids on lists without repeated elements is awkward (resources may be equal
+     as records); we go through positions *)
+  Lemma distinct_ids_nth m :
+    (forall i j a b, i < j -> nth_error m i = Some a -> nth_error m j = Some b ->
+                     id_equals (cur_id cs a) (cur_id cs b) = false) <-> distinct_ids m.
+  Proof.
+    induction m as [|r t IH]; cbn [distinct_ids].
+    - split; [auto|]. intros _ i j a b _ H. destruct i; discriminate.
+    - split.
+      + intros H. split.
+        * intros x Hx. apply In_nth_error in Hx as (k & Hk). apply (H 0 (S k) r x); [lia|reflexivity|exact Hk].
+        * apply IH. intros i j a b Hij Ha Hb. apply (H (S i) (S j) a b); [lia|exact Ha|exact Hb].
+      + intros [H1 H2] i j a b Hij Ha Hb. destruct i as [|i].
+        * cbn in Ha. inv Ha. destruct j as [|j]; [lia|]. cbn in Hb. apply H1. eapply nth_error_In; eauto.
+        * destruct j as [|j]; [lia|]. cbn in Ha, Hb. apply (proj2 IH H2 i j a b); [lia|exact Ha|exact Hb].
+  Qed.
+
+  Lemma count_one_pos a m i j b :
+    nth_error m i = Some a -> nth_error m j = Some b -> i <> j -> count_id cs (cur_id cs a) m = 1 ->
+    id_equals (cur_id cs a) (cur_id cs b) = false.
+  Proof.
+    intros Ha Hb Hij Hc. destruct (id_equals (cur_id cs a) (cur_id cs b)) eqn:E; [|reflexivity]. exfalso.
+    assert (G : forall m i j, nth_error m i = Some a -> nth_error m j = Some b -> i <> j ->
+                2 <= count_id cs (cur_id cs a) m).
+    { clear -E. unfold count_id. induction m as [|x t IH]; intros i j Ha Hb Hij; [destruct i; discriminate|].
+      cbn [filter]. destruct i as [|i], j as [|j]; try congruence; cbn in Ha, Hb.
+      - inv Ha. rewrite id_equals_refl_rid. cbn [List.length].
+        assert (1 <= List.length (filter (fun y => id_equals (cur_id cs a) (cur_id cs y)) t)).
+        { apply nth_error_In in Hb. assert (In b (filter (fun y => id_equals (cur_id cs a) (cur_id cs y)) t)) by (apply filter_In; auto).
+          destruct (filter _ t); [contradiction|cbn; lia]. }
+        lia.
+      - inv Hb. rewrite E. cbn [List.length].
+        assert (1 <= List.length (filter (fun y => id_equals (cur_id cs a) (cur_id cs y)) t)).
+        { apply nth_error_In in Ha. assert (In a (filter (fun y => id_equals (cur_id cs a) (cur_id cs y)) t)) by (apply filter_In; split; [auto|apply id_equals_refl_rid]).
+          destruct (filter _ t); [contradiction|cbn; lia]. }
+        lia.
+      - specialize (IH i j Ha Hb ltac:(congruence)). destruct (id_equals _ (cur_id cs x)); cbn [List.length]; lia. }
+    specialize (G m i j Ha Hb Hij). lia.
+  Qed.
+
+  Lemma hash_check_distinct m m1 :
+    distinct_ids m -> mapM (hash_res nonstr) m = Ok m1 -> hash_check m1 = Ok tt -> distinct_ids m1.
+  Proof.
+    intros Hd EH HC. apply mapM_Forall2P in EH.
+    unfold hash_check in HC. destruct (forallb _ m1) eqn:EF; [|discriminate]. rewrite forallb_forall in EF.
+    apply distinct_ids_nth. intros i j a b Hij Ha Hb.
+    assert (Hpos : forall k x, nth_error m1 k = Some x -> exists y, nth_error m k = Some y /\ hash_res nonstr y = Ok x).
+    { clear -EH. induction EH as [|y x tm t1 Hyx _ IH]; intros k z Hk; [destruct k; discriminate|].
+      destruct k as [|k]; cbn in Hk |- *; [inv Hk; eauto|auto]. }
+    destruct (r_needs_hash a) eqn:Na.
+    - (* a was renamed: its id occurs exactly once in m1 *)
+      pose proof (EF a (nth_error_In _ _ Ha)) as Ca. rewrite Na in Ca. cbn [negb orb] in Ca. apply Nat.eqb_eq in Ca.
+      apply (count_one_pos a m1 i j b); auto. lia.
+    - destruct (r_needs_hash b) eqn:Nb.
+      + pose proof (EF b (nth_error_In _ _ Hb)) as Cb. rewrite Nb in Cb. cbn [negb orb] in Cb. apply Nat.eqb_eq in Cb.
+        rewrite id_equals_sym. apply (count_one_pos b m1 j i a); auto. lia.
+      + destruct (Hpos _ _ Ha) as (a0 & Ha0 & Ea). destruct (Hpos _ _ Hb) as (b0 & Hb0 & Eb).
+        assert (Na0 : r_needs_hash a0 = false) by (rewrite <- (hash_res_needs _ _ Ea); exact Na).
+        assert (Nb0 : r_needs_hash b0 = false) by (rewrite <- (hash_res_needs _ _ Eb); exact Nb).
+        rewrite (hash_res_unrenamed _ _ Ea Na0), (hash_res_unrenamed _ _ Eb Nb0).
+        apply (proj2 (distinct_ids_nth m) Hd i j a0 b0); auto.
+  Qed.
+
+  (* PIPE_build_no_panic: since the HashTransformer re-checks the ids (fix 9a490e0) the whole build of a
+     well-formed tree never panics *)
+  Theorem build_no_panic o t : tree_wf t -> build nonstr o t <> Panic.
+  Proof.
+    intros Hwf. unfold build. destruct t as [docs|n d ents]; [discriminate|].
     apply np_bind; [apply accumulate_no_panic; exact Hwf|]. intros m EA.
-    destruct (accumulate_Inv nonstr _ _ Hwf EA) as [HW _].
+    destruct (accumulate_Inv nonstr _ _ Hwf EA) as [HW Hd].
     apply np_bind; [apply np_mapM_in; intros; apply np_hash_res|]. intros m1 EH.
     assert (HW1 : Forall W m1).
     { clear -HW EH. apply mapM_Forall2P in EH. induction EH as [|r r' t t' Hr _ IH]; [constructor|].
       inversion HW; subst. constructor; [eapply hash_res_W; eauto|auto]. }
+    apply np_bind; [unfold hash_check; destruct (forallb _ m1); discriminate|]. intros [] EC.
+    pose proof (hash_check_distinct _ _ Hd EH EC) as Hd1.
     destruct pipe_rules as [rules| | |] eqn:ER; cbn [bind]; try discriminate.
     assert (ER' : effective_rules gen_gvk_order_first gen_gvk_order_last gen_nameref_raw = Ok rules)
       by (rewrite <- pipe_rules_eq; exact ER).
@@ -1091,18 +1185,44 @@ Section TopNoPanic.
     { apply np_nameref; [exact ER'|]. clear -HW1. induction HW1; constructor; auto using W_P. }
     intros m2 EN.
     assert (Hd2 : distinct_ids m2).
-    { eapply Forall2_same_identity_ids; [eapply gen_transform_identity; eauto|]. eapply Hc; eauto. }
+    { eapply Forall2_same_identity_ids; [eapply gen_transform_identity; eauto|exact Hd1]. }
     apply np_bind; [apply np_ignore_local; exact Hd2|]. intros m2l _.
     apply np_bind; [destruct o; cbn [sort_resources]; try discriminate; apply np_append_all|]. intros; discriminate.
   Qed.
 
-  (* the characterisation read the other way: on a well-formed tree a Panic of the build is the
-     FromResourceSlice collision after the hash step *)
-  Corollary build_panic_is_hash_clash o t : tree_wf t -> build nonstr o t = Panic -> ~ no_hash_clash t.
-  Proof. intros Hwf H Hc. exact (build_no_panic o t Hwf Hc H). Qed.
+  (* ... and its outputs have pairwise distinct ids whatever the sort option (C07: the fifo case used to be refuted
+     by the hash clash) *)
+  Theorem build_ids_distinct_wf t m m1 :
+    tree_wf t -> accumulate nonstr t = Ok m -> mapM (hash_res nonstr) m = Ok m1 -> hash_check m1 = Ok tt ->
+    distinct_ids m1.
+  Proof.
+    intros Hwf EA EH EC. destruct (accumulate_Inv nonstr _ _ Hwf EA) as [_ Hd]. eapply hash_check_distinct; eauto.
+  Qed.
+
+  (* PIPE_ids_unique for well-formed trees, whatever the sort option *)
+  Theorem build_ids_unique_wf o t outs :
+    tree_wf t -> build nonstr o t = Ok outs -> distinct_node_ids outs.
+  Proof.
+    intros Hwf H. unfold build in H. destruct t as [docs|n d ents]; [discriminate|].
+    destruct (accumulate nonstr (PDir n d ents)) as [m| | |] eqn:EA; cbn [bind] in H; try discriminate.
+    destruct (mapM (hash_res nonstr) m) as [m1| | |] eqn:EH; cbn [bind] in H; try discriminate.
+    destruct (hash_check m1) as [[]| | |] eqn:EC; cbn [bind] in H; try discriminate.
+    destruct pipe_rules as [rules| | |] eqn:ER; cbn [bind] in H; try discriminate.
+    assert (ER' : effective_rules gen_gvk_order_first gen_gvk_order_last gen_nameref_raw = Ok rules)
+      by (rewrite <- pipe_rules_eq; exact ER).
+    destruct (nameref_transform cs nonstr rules m1) as [m2| | |] eqn:EN; cbn [bind] in H; try discriminate.
+    destruct (ignore_local m2) as [m2l| | |] eqn:EL; cbn [bind] in H; try discriminate.
+    destruct (sort_resources o m2l) as [m3| | |] eqn:ES; cbn [bind] in H; try discriminate. inv H.
+    apply distinct_ids_strip.
+    eapply distinct_ids_perm; [apply Permutation.Permutation_sym; eapply sort_perm; exact ES|].
+    eapply ignore_local_distinct; [exact EL|].
+    eapply Forall2_same_identity_ids; [eapply gen_transform_identity; eauto|].
+    eapply build_ids_distinct_wf; eauto.
+  Qed.
 End TopNoPanic.
 
-(* non-vacuity / necessity: the hash-clash tree IS well-formed, and its build panics *)
+(* regression: the hash-clash tree IS well-formed; its build used to panic in IgnoreLocal (FromResourceSlice) and is an
+   error since the HashTransformer re-checks the ids (/repo 9a490e0) *)
 Definition clash_tree : ptree :=
   PDir "t" (mkPDirs "" "" "" [] [] [] [mkPGen "a" "" "" ["k=v"] "" false [] [] false] [])
     [PFile [Map [("apiVersion", Scalar TStr SPlain "v1"); ("kind", Scalar TStr SPlain "ConfigMap");
@@ -1110,7 +1230,7 @@ Definition clash_tree : ptree :=
 
 Ltac solve_creates := first [left; vm_compute; reflexivity | right; vm_compute; reflexivity].
 Ltac solve_dirs_wf :=
-  unfold dirs_wf, no_custom_fields, gens_create; cbn [pd_ns pd_prefix pd_suffix pd_labels pd_cmgens pd_secgens pd_replicas pd_images mkPDirs mkPDirsG];
+  unfold dirs_wf, no_custom_fields, gens_create; cbn [pd_ns pd_prefix pd_suffix pd_labels pd_cmgens pd_secgens pd_replicas pd_images pd_patches mkPDirs mkPDirsG mkPDirsX];
   repeat match goal with
          | |- _ /\ _ => split
          | |- Forall _ [] => constructor
@@ -1128,7 +1248,7 @@ Proof.
   constructor; [solve_wf_node|constructor].
 Qed.
 
-Example clash_tree_panics : build (fun _ => false) PSortNone clash_tree = Panic.
+Example clash_tree_err : build (fun _ => false) PSortNone clash_tree = Err.
 Proof. vm_compute. reflexivity. Qed.
 
 (* a well-formed two-layer tree with a namespace directive, prefixes and a generator, without a clash *)
